@@ -522,9 +522,9 @@ func c16RunMw(c *c16Case) Result {
 	case 3:
 		cfg.Filesystem, cfg.Root, atW = wrapH(http.Dir(c16Work)), c16RootName, true
 	case 4:
-		cfg.Filesystem, kind = wrapH(http.FS(os.DirFS(c16Root))), 1
+		cfg.Filesystem, kind = wrapH(http.FS(os.DirFS(c16Root))), 3
 	case 5:
-		cfg.Filesystem, cfg.Root, atW, kind = wrapH(http.FS(os.DirFS(c16Work))), c16RootName, true, 1
+		cfg.Filesystem, cfg.Root, atW, kind = wrapH(http.FS(os.DirFS(c16Work))), c16RootName, true, 3
 	case 6:
 		cfg.Filesystem, cfg.Root, atW, kind = wrapH(http.FS(c16MapFS)), c16RootName, true, 2
 	case 14:
@@ -1019,7 +1019,49 @@ func c16Run(ci any) (res Result) {
 
 var c16Adversarial = []string{"..", ".", "%2e", "%2e%2e", "%2E%2E", ".%2e", "%2e.", "%2f", "%2F", "%5c", "\\", "", "%252e%252e", "%252f", "%25",
 	"%", "%zz", "%2", "...", "....", "..%2f..", "..%5c..", "%2e%2e%2f", "..;", "%c0%ae%c0%ae", "%ff", "..%2f", "%2f..", "..\\",
-	"%2e%2e%2f%2e%2e", "%25%32%65", "..%252f", "%5c..", "%2e%2e%5c", "/", "//"}
+	"%2e%2e%2f%2e%2e", "%25%32%65", "..%252f", "%5c..", "%2e%2e%5c", "/", "//",
+	".%00.", "%00..", "..%00", ".%09.", ".%0a.", ".%0d.", ".%7f.", ".%e2%80%8b.", ".%ef%bb%bf.", "%00", ".%2500.", "a.txt%00", ".%20."}
+// bytes a "sanitiser" might drop from a name: NUL, line breaks, tab, DEL, zero-width space, byte order mark,
+// soft hyphen, vertical tab, space; each as the raw byte sequence
+var c16Droppable = []string{"\x00", "\n", "\r", "\t", "\x7f", "\xe2\x80\x8b", "\xef\xbb\xbf", "\xc2\xad", "\x0b", " ", "\x00\x00"}
+
+// dot-dot look-alikes: ordinary path elements for path.Clean that become ".." once such a byte is removed,
+// and names cut short at such a byte (percent-encoded; single and double encoding)
+var c16LookAlike = []string{".%00.", "%00..", "..%00", "%00.%00.%00", ".%2500.", ".%09.", ".%0a.", ".%0A.", ".%0d.", ".%0d%0a.", ".%7f.", ".%7F.", ".%e2%80%8b.", ".%ef%bb%bf.",
+	".%c2%ad.", ".%0b.", ".%20.", "%20..", "..%20", ".%00", "%00.", "%00", "%0a", "a.txt%00", "a.txt%00.html", "secret%00.txt", "secret.txt%00", "index.html%0a", "dir%00", "%00dir",
+	"..%00%00", ".%00%00."}
+
+func c16PctAll(s string) string {
+	var b strings.Builder
+	for i := 0; i < len(s); i++ {
+		fmt.Fprintf(&b, "%%%02x", s[i])
+	}
+	return b.String()
+}
+
+// c16Smuggle rewrites every ".." element of a relative path into a look-alike carrying the byte
+// sequence d (percent-encoded): `..` -> `.d.`, `d..`, `..d`, `d.d.d`.
+func c16Smuggle(rel, d string, form int) string {
+	e := c16PctAll(d)
+	segs := strings.Split(rel, "/")
+	for i, sg := range segs {
+		if sg != ".." {
+			continue
+		}
+		switch (form + i) % 4 {
+		case 0:
+			segs[i] = "." + e + "."
+		case 1:
+			segs[i] = e + ".."
+		case 2:
+			segs[i] = ".." + e
+		default:
+			segs[i] = e + "." + e + "." + e
+		}
+	}
+	return strings.Join(segs, "/")
+}
+
 var c16Real = []string{"a.txt", "dir", "sub", "b.txt", "c.txt", "index.html", "static", "d.txt", "empty", "secret.txt", "secret", "public",
 	"public.bak", "publicsecret", "x.txt", "s.txt", "sp ace.txt", "sp%20ace.txt", "100%.txt", "100%25.txt", "pct%2e.txt", "pct%252e.txt",
 	"\xc3\xa9.txt", "%c3%a9.txt", ".hidden", "x.y.z", "t.txt", "p.txt", "nope", "api", "ok", "files",
@@ -1080,12 +1122,23 @@ func c16GenTarget(r *rand.Rand, mount string, big bool) string {
 		rel = c16Encode(r, c16Pick(r, c16RealPaths))
 	case 2, 3: // a path to something outside, encoded in some way
 		rel = c16Encode(r, c16Pick(r, c16Outside))
+		if r.Intn(3) == 0 {
+			// ... its dot-dot elements written as look-alikes that a byte-dropping step would turn into ".."
+			rel = c16Smuggle(c16Pick(r, c16Outside), c16Pick(r, c16Droppable), r.Intn(4))
+			if r.Intn(4) == 0 {
+				rel = c16Pick(r, []string{"dir/", ".../", "static/", "nope/"}) + rel
+			}
+		}
 	case 4: // outside path reached through a real directory
 		rel = c16Encode(r, c16Pick(r, []string{"dir/", "dir/sub/", "empty/", ".../", "static/", "nope/"})+"../"+c16Pick(r, c16Outside))
 	case 5: // real path with one adversarial segment spliced in
 		segs := strings.Split(c16Pick(r, c16RealPaths), "/")
 		k := r.Intn(len(segs) + 1)
-		segs = append(segs[:k], append([]string{c16Pick(r, c16Adversarial)}, segs[k:]...)...)
+		adv := c16Pick(r, c16Adversarial)
+		if r.Intn(4) == 0 {
+			adv = c16Pick(r, c16LookAlike)
+		}
+		segs = append(segs[:k], append([]string{adv}, segs[k:]...)...)
 		rel = strings.Join(segs, "/")
 	case 6: // the IgnoreBase shapes: last element equal to the route base or "."
 		rel = c16Pick(r, []string{"", "dir/", ".../", "static/", "dir/sub/", ".../secret/", "nope/", "a.txt/", ".../t.txt/"}) +
@@ -1317,6 +1370,28 @@ func c16Gen(r *rand.Rand, tier string) []any {
 			out = append(out, dl)
 		}
 	}
+	// every outside target with its dot-dot elements written as look-alikes around every droppable byte
+	// sequence, against the configurations whose file system is rooted above Root (where a ".." surviving
+	// in the name given to Open leaves the root), the plain ones, the Static(FS) routes and the download handler
+	form := 0
+	for k := 0; k < reps; k++ {
+		for _, o := range c16Outside {
+			for _, d := range c16Droppable {
+				for _, f := range []int{3, 5, 6, 14, 15, 2, 0} {
+					m := []int{0, 2, 5, 4}[form%4]
+					c := &c16Case{Kind: 0, Mount: m, FS: f, Browse: form%2 == 1, HTML5: form%5 == 0}
+					c16SetTarget(r, c, c16MwMountPrefix[m]+"/"+c16Smuggle(o, d, form))
+					out = append(out, c)
+					form++
+				}
+				dc := &c16Case{Kind: 1, Variant: []int{2, 3, 13, 6, 0}[form%5], Prefix: "/assets", SubRoot: c16RootName}
+				c16SetTarget(r, dc, c16DirMount(dc)+"/"+c16Smuggle(o, d, form))
+				dl := &c16Case{Kind: 2, Variant: 7}
+				c16SetTarget(r, dl, "/dl/"+c16Smuggle(o, d, form+1))
+				out = append(out, dc, dl)
+			}
+		}
+	}
 	for i := 0; i < n; i++ {
 		out = append(out, c16GenCase(r, tier == "thorough" && i%3 == 0))
 	}
@@ -1401,7 +1476,7 @@ func c16Shrink(ci any) []any {
 func init() {
 	register(&Prop{
 		ID:             "C16",
-		Rule:           "marker tree created at run time under <verif>/.work (root `public` with files, nested directories, a `...` directory, names with space, %, non-ASCII; secrets and look-alike siblings `public.bak`, `publicsecret`, `secret`, `index.html`, `static/` next to the root). Requests: raw targets over the adversarial segment alphabet (.., ., %2e, %2e%2e, %2f, %5c, \\, empty, double encodings, overlong/invalid UTF-8, malformed escapes) mixed with real names, real paths spliced with one adversarial segment, encoded paths to the outside secrets, IgnoreBase shapes (last element = route base or `.`); URL.Path/RawPath derived as net/http would, or set verbatim. Configurations: Static middleware (StaticWithConfig and the convenience constructor Static(root)) x mount {e.Use, e.Pre, group /static, e.Use + catch-all route, group /files, e.Use + /st*, two instances in one chain} x Skipper {nil, false, true, by path prefix} x injected failures of the file objects {Stat of files, Stat of directories, Readdir} x file system {default http.Dir with absolute / relative / unclean / dot-dot Root (working directory W or the web root), recording http.Dir(root), http.Dir(parent)+Root, http.FS(os.DirFS), http.FS(os.DirFS(parent))+Root, http.FS(MapFS)+Root, http.FS(fs.Sub(MapFS))} x Index x HTML5 x Browse x IgnoreBase; Echo.Static / StaticFS / Group.Static / StaticFS x {absolute, relative root, os.DirFS, fs.Sub(MapFS), custom Echo.Filesystem, MustSubFS} x prefixes; FileFS / File routes of Echo and Group, Context.FileFS / Attachment / Inline (Content-Disposition compared), File on the DEFAULT Echo.Filesystem (os.Open: relative to the working directory, absolute), a download handler taking the name from the request; MustSubFS roots (valid, unclean, climbing, rooted: must panic); fs.FS whose files fail Stat or cannot seek; a third request path may be served first through the same Echo (state carried between requests). The tree also holds names with URL-special bytes (+ & = ; ? # * : ~ $ ! ' ( ) , @ backslash, double space) next to look-alike siblings. Every regular file under the root is also requested by its clean path through every mount. non-trivial = request with dot-dot / percent / backslash / double slash, or a response that is a file or a listing; distinct = distinct model op lines",
+		Rule:           "marker tree created at run time under <verif>/.work (root `public` with files, nested directories, a `...` directory, names with space, %, non-ASCII; secrets and look-alike siblings `public.bak`, `publicsecret`, `secret`, `index.html`, `static/` next to the root). Requests: raw targets over the adversarial segment alphabet (.., ., %2e, %2e%2e, %2f, %5c, \\, empty, double encodings, overlong/invalid UTF-8, malformed escapes; dot-dot look-alikes around bytes a sanitiser might drop — NUL, LF, CR, TAB, DEL, VT, space, U+200B, U+FEFF, U+00AD: `.%00.`, `%00..`, `..%00`, `.%2500.` — and names cut short at such a byte) mixed with real names, real paths spliced with one adversarial segment, encoded paths to the outside secrets, IgnoreBase shapes (last element = route base or `.`); URL.Path/RawPath derived as net/http would, or set verbatim. Configurations: Static middleware (StaticWithConfig and the convenience constructor Static(root)) x mount {e.Use, e.Pre, group /static, e.Use + catch-all route, group /files, e.Use + /st*, two instances in one chain} x Skipper {nil, false, true, by path prefix} x injected failures of the file objects {Stat of files, Stat of directories, Readdir} x file system {default http.Dir with absolute / relative / unclean / dot-dot Root (working directory W or the web root), recording http.Dir(root), http.Dir(parent)+Root, http.FS(os.DirFS), http.FS(os.DirFS(parent))+Root, http.FS(MapFS)+Root, http.FS(fs.Sub(MapFS))} x Index x HTML5 x Browse x IgnoreBase; Echo.Static / StaticFS / Group.Static / StaticFS x {absolute, relative root, os.DirFS, fs.Sub(MapFS), custom Echo.Filesystem, MustSubFS} x prefixes; FileFS / File routes of Echo and Group, Context.FileFS / Attachment / Inline (Content-Disposition compared), File on the DEFAULT Echo.Filesystem (os.Open: relative to the working directory, absolute), a download handler taking the name from the request; MustSubFS roots (valid, unclean, climbing, rooted: must panic); fs.FS whose files fail Stat or cannot seek; a third request path may be served first through the same Echo (state carried between requests). The tree also holds names with URL-special bytes (+ & = ; ? # * : ~ $ ! ' ( ) , @ backslash, double space) next to look-alike siblings. Every regular file under the root is also requested by its clean path through every mount. non-trivial = request with dot-dot / percent / backslash / double slash, or a response that is a file or a listing; distinct = distinct model op lines",
 		New:            func() any { return &c16Case{} },
 		Gen:            func(r *rand.Rand, tier string) []any { c16Setup(); return c16Gen(r, tier) },
 		Run:            c16Run,
